@@ -121,6 +121,9 @@ func (p *protocolAdaptor) serverGetProtocolInitializer() (protocolInitializer, e
 // handleShareMemoryByFilePath
 func handleShareMemoryByFilePath(s *Session, hdr header) error {
 	s.logger.infof("handleShareMemoryMetadata head:%+v", hdr)
+	if hdr.Length() < headerSize || hdr.Length() > maxShmMetadataEventLen {
+		return ErrInvalidMsgType
+	}
 	body := make([]byte, hdr.Length()-headerSize)
 	err := blockReadFull(s.connFd, body)
 	if err != nil {
@@ -128,6 +131,9 @@ func handleShareMemoryByFilePath(s *Session, hdr header) error {
 		if err != io.EOF && !strings.Contains(err.Error(), "closed") && !strings.Contains(err.Error(), "reset by peer") {
 			s.logger.errorf("shmipc: Failed to read pathlen: %s", err.Error())
 		}
+		return err
+	}
+	if err := checkShmMetadata(body); err != nil {
 		return err
 	}
 	bufferPath, queuePath := s.extractShmMetadata(body)
@@ -192,10 +198,16 @@ func handleShareMemoryByMemFd(s *Session, h header) error {
 	s.logger.infof("recv memfd, header:%s", h.String())
 
 	//1.recv shm metadata
+	if h.Length() < headerSize || h.Length() > maxShmMetadataEventLen {
+		return ErrInvalidMsgType
+	}
 	body := make([]byte, h.Length()-headerSize)
 	err := blockReadFull(s.connFd, body)
 	if err != nil {
 		return errors.New("read shm metadata failed,reason:" + err.Error())
+	}
+	if err := checkShmMetadata(body); err != nil {
+		return err
 	}
 	bufferPath, queuePath := s.extractShmMetadata(body)
 
